@@ -362,6 +362,7 @@ def d_isvar(F, s):
 
 
 LOCKSTEP_PAIRS = {("context", "needles"), ("icontext", "ineedles")}
+LOCKSTEP_PAIR_IDS = set()  # {(context vector id, needle vector id)} computed by c07.lockstep_roles
 LOCKSTEP_OK = False  # set by the caller once the LOCKSTEP obligations (C07) have been evaluated on this tree
 MUTATORS = ("::push", "::pop", "::clear", "::remove", "::retain", "::drain", "::truncate", "::extend", "::insert", "::append", "::split_off", "::swap_remove")
 
@@ -398,7 +399,7 @@ def d_len1(F, s):
             if not ok or g is None or g.get("k") != "Var":
                 continue
             same = g["id"] == vid
-            pair = (vname, g["name"]) in LOCKSTEP_PAIRS
+            pair = (vid, g["id"]) in LOCKSTEP_PAIR_IDS
             if not (same or pair):
                 continue
             # no mutation of the guarded vector between the guard and the site
